@@ -12,6 +12,90 @@ def _key(c, r):
                                                     json.dumps(a["branches"], sort_keys=True), sorted(r["tags"])[0])
 
 
+SUFFIX = {"i8": "i8", "i16": "i16", "i32": "i32", "i64": "i64", "u8": "u8", "u16": "u16", "u32": "u32", "u64": "u64", "f32": "f32", "f64": "f64"}
+ANCHOR_TXT = {
+    "i8": ["-128", "-1", "0", "1", "5", "127"], "i16": ["-32768", "-1", "0", "1", "5", "32767"],
+    "i32": ["-2147483648", "-1", "0", "1", "5", "2147483647"], "i64": ["-9223372036854775808", "-1", "0", "1", "5", "9223372036854775807"],
+    "u8": ["0", "1", "2", "5", "254", "255"], "u16": ["0", "1", "2", "5", "65534", "65535"],
+    "u32": ["0", "1", "2", "5", "4294967294", "4294967295"], "u64": ["0", "1", "2", "5", "18446744073709551614", "18446744073709551615"],
+    "f32": ["-1.5", "0.0", "0.5", "1.0", "2.5", "1000000.5"], "f64": ["-1.5", "0.0", "0.1", "1.0", "2.5", "1000000.5"]}
+
+
+def run_l2(run, cases, rng, n8, nother):
+    """run-time selection by generated code: accepted declarations packed as keys of one project"""
+    import os
+    import probe
+    def has_fallback(a):
+        return any(alt["f"] in ("wild", "full") or (alt["f"] == "excl" and alt["lo"] == 0 and alt["hi"] == 0)
+                   for b in a["branches"] for alt in b["alts"])
+    # without a fallback the generated `match` is rejected by rustc unless the branches are exhaustive: the probe only packs
+    # declarations that have one (a declaration without fallback is still decided at L1)
+    acc = [c for c in cases if len(c["files"][0][1]["e"]) > 1 and c["abs"]["typed"] and has_fallback(c["abs"])]
+    eight = [c for c in acc if c["abs"]["ty"] in ("i8", "u8")]
+    other = [c for c in acc if c["abs"]["ty"] not in ("i8", "u8")]
+    chosen = (eight if len(eight) <= n8 else rng.sample(eight, n8)) + (other if len(other) <= nother else rng.sample(other, nother))
+    # anchors of the spec must be the literals used here (checked against the case text)
+    entries, items, calls, meta = [], [], [], {}
+    for j, c in enumerate(chosen):
+        a = c["abs"]
+        name = "r%04d" % (j + 1)
+        decl = [e for e in c["files"][0][1]["e"] if e[0] == "r"][0][1]
+        entries.append([name, decl])
+        items.append(a)
+        ty = a["ty"]
+        for flav in ("td_string", "td"):
+            if ty in ("i8", "u8"):
+                cid = len(calls) + 1
+                if flav == "td_string":
+                    rust = "for n in %s::MIN..=%s::MAX { println!(\"{{\\\"call\\\":%d,\\\"n\\\":{},\\\"outcome\\\":\\\"Ok\\\",\\\"out\\\":\\\"{}\\\"}}\", n, esc(&td_string!(Locale::en, %s, count = n).to_string())); } String::new()" % (ty, ty, cid, name)
+                else:
+                    rust = "for n in %s::MIN..=%s::MAX { println!(\"{{\\\"call\\\":%d,\\\"n\\\":{},\\\"outcome\\\":\\\"Ok\\\",\\\"out\\\":\\\"{}\\\"}}\", n, esc(&render(td!(Locale::en, %s, count = move || n)))); } String::new()" % (ty, ty, cid, name)
+                calls.append({"id": cid, "flav": "raw", "rust": rust})
+                meta[cid] = {"j": j + 1, "mode": "int", "flav": flav}
+            else:
+                for idx, txt in enumerate(ANCHOR_TXT[ty]):
+                    cid = len(calls) + 1
+                    lit = ("(%s%s)" % (txt, SUFFIX[ty])) if txt.startswith("-") else (txt + SUFFIX[ty])
+                    if flav == "td_string":
+                        rust = "td_string!(Locale::en, %s, count = %s).to_string()" % (name, lit)
+                    else:
+                        rust = "render(td!(Locale::en, %s, count = move || %s))" % (name, lit)
+                    calls.append({"id": cid, "flav": "raw", "rust": rust})
+                    meta[cid] = {"j": j + 1, "mode": "anchor", "idx": idx + 1, "flav": flav}
+    project = {"name": "c04probe", "cfg": {"default": "en", "locales": ["en"]}, "files": [["en", {"t": "map", "e": entries}]], "calls": calls}
+    results, log = probe.build_and_run(run, [project], tag="_c04")
+    r = results["c04probe"]
+    if not r["built"]:
+        run.violation("l2-build", "a project made of accepted range declarations does not compile", {"build_log": r["build_log"] or log[-3000:]})
+        return 0
+    trace = []
+    for ev in r["events"]:
+        m = meta[ev["call"]]
+        if m["mode"] == "int":
+            if "n" not in ev:
+                continue      # the wrapper line of the loop
+            trace.append({"ev": "Render", "case": 1, "j": m["j"], "mode": "int", "n": ev["n"], "idx": 0, "flav": m["flav"], "outcome": ev["outcome"], "out": probe.to_syms(ev["out"])})
+        else:
+            trace.append({"ev": "Render", "case": 1, "j": m["j"], "mode": "anchor", "n": 0, "idx": m["idx"], "flav": m["flav"], "outcome": ev["outcome"], "out": probe.to_syms(ev["out"])})
+    trace.append({"ev": "End"})
+    wd = os.path.join(run.workdir, "l2")
+    os.makedirs(wd, exist_ok=True)
+    tpath, cpath = os.path.join(wd, "trace.ndjson"), os.path.join(wd, "cases.ndjson")
+    vp.write_ndjson(tpath, trace)
+    vp.write_ndjson(cpath, [{"id": 1, "abs": {"items": items}}])
+    summary, rejects, _ = vp.trace_validate("Trace_Ranges", "Trace_Ranges.cfg", wd, tpath, cpath, timeout=3600)
+    if summary["consumed"] != summary["events"]:
+        raise vp.ToolError("trace spec consumed %s of %s events" % (summary["consumed"], summary["events"]))
+    run.traces += 1
+    run.events += summary["events"]
+    for rj in rejects:
+        ev = trace[rj["l"] - 1]
+        a = items[ev["j"] - 1]
+        run.violation("l2;%s;ty=%s;branches=%s;count=%s" % (ev["flav"], a["ty"], json.dumps(a["branches"], sort_keys=True), ev["n"] if ev["mode"] == "int" else "anchor%d" % ev["idx"]),
+                      "run-time selection differs: rendered %r" % vp.text_of(ev["out"]), {"event": ev, "decl": a})
+    return len(trace) - 1
+
+
 def check(run):
     quick = run.tier == "quick"
     cases, res = loadfam.gen_cases(run, "MC_Ranges", "MC_Ranges_%s.cfg" % run.tier, timeout=7200)
@@ -23,10 +107,12 @@ def check(run):
     run.samples = [chosen[0]["abs"], chosen[len(chosen) // 2]["abs"]]
     loadfam.replay_load(run, chosen, "Trace_Ranges", "Trace_Ranges.cfg", build_features=("json", "quote"),
                         variant="json-quote", key_of=_key)
+    run.notes["l2_render_events"] = run_l2(run, cases, rng, 12 if quick else 120, 60 if quick else 800)
     run.exhaustive = len(chosen) == len(cases)
     run.notes["declarations_generated"] = len(cases)
     run.assumptions = ["counts and bounds range over 6 anchors per numeric type (type minimum, neighbours of 0, type maximum; floats: exactly representable values)",
-                       "parse-time selection is observed through `$t(r, {\"count\": n})` keys; run-time selection by generated code is the L2 check",
+                       "L1: parse-time selection through `$t(r, {\"count\": n})` keys; L2: a sample of accepted declarations is compiled with load_locales!() and td_string! / td! are executed "
+                       "for EVERY value of i8 / u8 and for the 6 anchors of the other types",
                        "a declaration the documentation rejects must fail to load; empty ranges and `..MIN` may be rejected"]
     return run.finish("every declaration of the bounded universe (spec forms x fallback variants x spellings x numeric types), "
                       "seeded sample above the cap; non-trivial: declarations the spec classifies as accept with at least one literal count",
